@@ -1029,7 +1029,8 @@ theorem fileContentSeek_ok (e : Ext lr0 lr) (h : Inv b f lr0) (n : Nat) (hn : n 
 /-- `check_io_error()?`: a parked error ends the parse as an I/O error (only a failing source
 parks one); otherwise nothing changes. -/
 theorem checkIoError_ok (e : Ext lr0 lr) (h : Inv b f lr0) :
-    Wp (Err b f) checkIoError lr (fun _ lr1 => Ext lr0 lr1 ∧ lr1.v.peeked = lr.v.peeked) := by
+    Wp (Err b f) checkIoError lr (fun _ lr1 => Ext lr0 lr1 ∧ lr1.v.peeked = lr.v.peeked ∧
+      lr1.v.ioErr = false ∧ lr1.v.sawEnd = lr.v.sawEnd) := by
   unfold checkIoError
   refine Wp.bind (Wp.get ?_)
   simp only [View.checkIoError]
@@ -1044,7 +1045,7 @@ theorem checkIoError_ok (e : Ext lr0 lr) (h : Inv b f lr0) :
       rw [← i1.fault]; exact i1.finv.2 hio
   · have hio' : lr.v.ioErr = false := by simpa using hio
     simp only [hio', Bool.false_eq_true, ↓reduceIte]
-    refine Wp.pure ⟨⟨e.rest, e.pos, e.mark, e.line, e.lineStart, e.peeked, e.fault, ?_⟩, rfl⟩
+    refine Wp.pure ⟨⟨e.rest, e.pos, e.mark, e.line, e.lineStart, e.peeked, e.fault, ?_⟩, rfl, rfl, rfl⟩
     intro hf
     have := e.finv hf
     refine ⟨?_, ?_⟩
@@ -1057,19 +1058,26 @@ theorem checkIoError_ok (e : Ext lr0 lr) (h : Inv b f lr0) :
 I/O error; the UTF-8 / missing-newline error is reported on the last line that contains valid
 data, with the line number advanced by the newlines skipped. -/
 theorem remainingFileContent_ok (h : Inv b f lr) :
-    Wp (Err b f) remainingFileContent lr (fun _ _ => True) := by
+    Wp (Err b f) remainingFileContent lr (fun _ _ => f = false) := by
   unfold remainingFileContent
   refine Wp.bind (Wp.get ?_)
   refine Wp.bind' (Wp.reqAtF (Ext.refl lr) lr.v.rest.length) ?_
-  intro c lr1 ⟨e1, _, p1, _⟩
+  intro c lr1 ⟨e1, hc, p1, hse⟩
+  have hse1 : lr1.v.sawEnd = true := hse (by rw [hc]; exact List.getElem?_eq_none (Nat.le_refl _))
   refine Wp.bind' (checkIoError_ok e1 h) ?_
-  intro _ lr2 ⟨e2, p2⟩
+  intro _ lr2 ⟨e2, p2, hio2, hse2⟩
+  have hf : f = false := by
+    have i2 := h.ext e2
+    cases hf : f
+    · rfl
+    · have := i2.finv.1 (by rw [i2.fault]; exact hf) (by rw [hse2]; exact hse1)
+      rw [hio2] at this; cases this
   refine Wp.bind (Wp.bufPrefixF e2 (Nat.le_refl _) (by omega) ?_)
   dsimp only
   split
   · refine Wp.bind (Wp.advanceWithBuf (demanded_ge (by rw [e2.rest]; exact Nat.le_refl _)
       (by rw [e2.pos]; omega)) ?_)
-    exact Wp.pure trivial
+    exact Wp.pure hf
   · have hup := utf8ValidUpTo_le (lr.v.rest.take lr.v.rest.length)
     simp only [List.length_take, Nat.min_self] at hup
     have htt : (lr.v.rest.take lr.v.rest.length).take (utf8ValidUpTo (lr.v.rest.take lr.v.rest.length)) =
@@ -1084,7 +1092,7 @@ theorem remainingFileContent_ok (h : Inv b f lr) :
 
 /-- `ParseSymbols::comment`. -/
 theorem comment_ok (p : Parser) (h : Inv b f lr) :
-    Wp (Err b f) (comment p) lr (fun _ _ => True) := by
+    Wp (Err b f) (comment p) lr (fun _ _ => f = false) := by
   unfold comment
   refine Wp.bind (Wp.get ?_)
   refine Wp.bind' (skipSymbols_ok p _ lr h (by omega)) ?_
@@ -1095,15 +1103,15 @@ theorem comment_ok (p : Parser) (h : Inv b f lr) :
   · refine Wp.bind' (requiredNewline_ok i2) ?_
     intro _ lr3 ⟨i3, _⟩
     refine Wp.bind' (remainingFileContent_ok i3) ?_
-    intro _ _ _
-    exact Wp.pure trivial
-  · refine Wp.bind' (Q1 := fun _ _ => True) (Wp.orGiveUp ((eof_ok i2).mono ?_)) ?_
-    · intro r lr3 ⟨i3, _⟩
+    intro _ _ hf
+    exact Wp.pure hf
+  · refine Wp.bind' (Q1 := fun _ _ => f = false) (Wp.orGiveUp ((eof_ok i2).mono ?_)) ?_
+    · intro r lr3 ⟨i3, _, _, hr⟩
       cases r with
       | none => exact unexpected_ok i3
-      | some _ => trivial
-    intro _ _ _
-    exact Wp.pure trivial
+      | some _ => exact (hr rfl).1
+    intro _ _ hf
+    exact Wp.pure hf
 
 end Aiger
 end Flussab
